@@ -2619,13 +2619,20 @@ class RockRidge:
         # above as a hint, and allow for some wiggle room.
 
         if px_record_length == 44 or sf_record_length == 21 or has_es_record or er_id == EXT_ID_112:
-            self.rr_version = '1.12'
+            rr_version = '1.12'
         else:
             # Not 1.12, so either 1.09 or 1.10.
             if sf_record_length == 12:
-                self.rr_version = '1.10'
+                rr_version = '1.10'
             else:
-                self.rr_version = '1.09'
+                rr_version = '1.09'
+
+        # The entries that tell the versions apart may live in the Directory
+        # Record, in the Continuation Area, or be split between them.  When
+        # parsing the Continuation Area, never fall back to an older version
+        # than the one already inferred from the Directory Record.
+        if not continuation or self.rr_version < rr_version:
+            self.rr_version = rr_version
 
         namelist = [nm.posix_name for nm in self.dr_entries.nm_records]
         namelist.extend([nm.posix_name for nm in self.ce_entries.nm_records])
